@@ -190,3 +190,16 @@ def alpha_body(f: FuncInfo, extra_subst=None) -> List[str]:
             txt = txt.replace(a, b)
         out.append(txt)
     return out
+
+
+def memo_rule(ctx, rep: Report, clause: str, modules):
+    """R-MEMO over the functions of the given modules"""
+    from ..rules_memo import check_memos
+    funcs = [f for f in ctx.program.all_functions() if f.module.name in modules]
+    res = check_memos(ctx, funcs)
+    for ok, fq, construct, reason, loc in res:
+        check(rep, 'MEMO', fq, construct, ok, reason, reason, loc, clause)
+    if not res:
+        rep.ob('MEMO', f'no memoised computation in {", ".join(sorted(m.split(".")[-1] for m in modules))}', '', True,
+               'nothing cached across evaluations: every result is recomputed from its inputs', False, clause)
+    return len(res)
